@@ -644,6 +644,11 @@ def form_program(form, args, blanks, wrapped):
         lines.append(stmt)
         cur += n + 1
     body = c13.form_src(form, len(args))
+    if ";; " in body:       # statements that come first, on lines of their own
+        first, body = body.split(";; ", 1)
+        ranges.append((cur, cur))
+        lines.append(first + ";")
+        cur += 1
     for _ in range(blanks):
         lines.append("")
         cur += 1
@@ -661,6 +666,14 @@ def form_program(form, args, blanks, wrapped):
         form_line = cur + 2
         lines.append("  " + body + tail)
         return "\n".join(lines), ranges, form_line, None
+    if wrapped == "default-value":
+        # the form is the default value of a parameter, on a line of its own
+        lines.append("def fq(x,")
+        form_line = cur + 1
+        lines.append("       y = " + body + ") y;")
+        lines.append("")
+        lines.append("fq(1)")
+        return "\n".join(lines), ranges, form_line, cur + 3
     if wrapped == "bare":       # the form is the whole body, no block
         lines.append("def fq()")
         form_line = cur + 1
@@ -756,6 +769,12 @@ NODE_FORMS = [
     "do error A catch A 1 end", "if A then 1", "while A do break end",
     "[1, 2][A to 1]", "def [x, y] = A; x", "for [x, y] in [A] do x end",
     "(fn(a) a)(...A)", "[...A]", "not A", "- A", "A and TRUE", "TRUE or A",
+    # a set holding the operand is put in order by a node
+    "def st = <<A, 1>>;; [...st]", "def st = <<A, 1>>;; [0, ...st, 2]",
+    "def st = <<A, 1>>;; (fn(a...) a...)(...st)",
+    "def st = <<A, 1>>;; <<<1 => [...st]>>>",
+    "def st = <<A, 1>>;; <*a = [...st]*>", "def st = <<A, 1>>;; list(st)[0]",
+    "def st = <<<A => 1, 1 => 2>>>;; [...st]",
 ]
 
 
@@ -765,9 +784,12 @@ def part_node_positions(part):
     for form in NODE_FORMS:
         for obj in HOOK_OBJECTS:
             for wrapped in (False, True, "bare", "if-multiline",
-                            "list-multiline", "finally-multiline"):
-                if wrapped in ("bare", "if-multiline", "list-multiline") \
-                        and (";" in form or form.startswith(
+                            "list-multiline", "finally-multiline",
+                            "default-value"):
+                if wrapped in ("bare", "if-multiline", "list-multiline",
+                               "default-value") \
+                        and (";" in form.split(";; ")[-1]
+                             or form.split(";; ")[-1].startswith(
                             ("def ", "for ", "while ", "if ", "error "))):
                     continue
                 for blanks in (0, 2):
